@@ -180,8 +180,8 @@ Definition no_as_thrice (ifs : list iface) : Prop := forall ia, (count_ia ia ifs
 (** ---- well-formedness of segments, as produced by beaconing ----
     [validate] (seg.Validate) plus: no wildcard ISD-AS, no AS twice in one
     segment, links between consecutive entries have non-zero interfaces on both
-    ends, the peer entries of one AS entry announce different links, a core
-    segment has at least two entries. *)
+    ends, the peer entries of one AS entry announce different links over a
+    non-zero local interface, a core segment has at least two entries. *)
 Fixpoint nodupb {A} (eqb : A -> A -> bool) (l : list A) : bool :=
   match l with
   | [] => true
@@ -207,7 +207,8 @@ Definition wf_segment (s : segment) : bool :=
   forallb (fun a => negb (ae_ia a =? 0)) (sg_entries s) &&
   nodupb N.eqb (map ae_ia (sg_entries s)) &&
   inner_ifs_ok true (sg_entries s) &&
-  forallb (fun a => nodupb peer_key_eqb (map peer_key (ae_peers a))) (sg_entries s).
+  forallb (fun a => nodupb peer_key_eqb (map peer_key (ae_peers a))) (sg_entries s) &&
+  forallb (fun a => forallb (fun p => negb (h_in (pe_hop p) =? 0)) (ae_peers a)) (sg_entries s).
 
 Definition wf_core (s : segment) : bool := wf_segment s && (2 <=? length (sg_entries s))%nat.
 
